@@ -156,16 +156,25 @@ class World:
     # ---- running
     def _guarded_step(self, loop: VLoop) -> None:
         if self.wall_budget:
+            # A coroutine that spins without yielding burns CPU: the budget is CPU time of this process (ITIMER_VIRTUAL), so that a
+            # machine busy with other work cannot make a healthy step look like a stall; a generous wall-clock alarm stays as the
+            # backstop for a step that blocks without burning CPU.
             def on_alarm(signum, frame):
                 # the exception lands in whatever coroutine is spinning (and may be swallowed there): remember it
-                self.stalled = f'loop {loop.name} did not yield within {self.wall_budget}s of wall-clock time'
+                what = 'of CPU time' if signum == signal.SIGVTALRM else 'of wall-clock time (backstop)'
+                self.stalled = f'loop {loop.name} did not yield within {self.wall_budget if signum == signal.SIGVTALRM else wall}s {what}'
                 raise Stall(self.stalled)
+            wall = max(180, 12 * self.wall_budget)
             old = signal.signal(signal.SIGALRM, on_alarm)
-            signal.alarm(self.wall_budget)
+            oldv = signal.signal(signal.SIGVTALRM, on_alarm)
+            signal.alarm(wall)
+            signal.setitimer(signal.ITIMER_VIRTUAL, self.wall_budget)
             try:
                 loop.step()
             finally:
+                signal.setitimer(signal.ITIMER_VIRTUAL, 0)
                 signal.alarm(0)
+                signal.signal(signal.SIGVTALRM, oldv)
                 signal.signal(signal.SIGALRM, old)
             if self.stalled:
                 raise Stall(self.stalled)
